@@ -172,7 +172,7 @@ OpSet(s, probes) ==
     \cup UNION {{[op |-> "erasea", l |-> l, pe |-> q[l][i]] : i \in 1..(Len(q[l]) - 1)} : l \in Lists}
     \cup {[op |-> "reverse", l |-> l] : l \in Lists} \cup {[op |-> "sort", l |-> l] : l \in Lists}
     \cup {[op |-> "concat", d |-> p[1], src |-> p[2]] : p \in {x \in Lists \X Lists : x[1] # x[2]}}
-    \cup {[op |-> "swap", a |-> p[1], b |-> p[2]] : p \in {x \in Lists \X Lists : x[1] < x[2]}}
+    \cup {[op |-> "swap", a |-> p[1], b |-> p[2]] : p \in {x \in Lists \X Lists : x[1] <= x[2]}}   \* a = b: swapped with itself
     \cup {[op |-> "clear", l |-> l] : l \in Lists}
     \cup (IF probes THEN
             UNION {{[op |-> "foreach", l |-> l, stop |-> st] : st \in 0..Len(q[l])} : l \in Lists}
